@@ -39,7 +39,7 @@ def cases(draw, tier):
     rows = draw(S.codes(n, sims, alpha))
     comp = draw(st.lists(st.integers(0, (1 << 30) - 1), min_size=16, max_size=16))
     return dict(nl=nl, m=m, sims=sims, stim=rows, fill=draw(st.integers(0, 7 if m == 8 else 3)),
-                c_reuse=draw(st.booleans()), strip_forks=draw(st.booleans()), comp=comp)
+                c_reuse=draw(st.booleans()), strip_forks=draw(st.booleans()), comp=comp, cyc=draw(st.sampled_from([0, 0, 1, 2, 3])))
 
 
 def run_sim(case, b, m):
@@ -56,6 +56,17 @@ def run_sim(case, b, m):
     for k, p in enumerate(pi_pos + st_pos):
         stim[p] = case['stim'][k]
     sim.s[0] = pack_bp(stim)
+    if case.get('cyc') and sims <= 64:
+        # through cycle(): the assignments of the primary inputs stay what the caller wrote (the state transfer concerns state elements only),
+        # and without state elements every cycle repeats the same propagation
+        pi_rows = np.array(sim.s[0][pi_pos])
+        sim.cycle(case['cyc'])
+        if not np.array_equal(np.array(sim.s[0][pi_pos]), pi_rows):
+            raise Violation(f'm={m}: cycle({case["cyc"]}) changed the assignment of a primary input: {unpack_bp(pi_rows, sims).tolist()} became '
+                            f'{unpack_bp(np.array(sim.s[0][pi_pos]), sims).tolist()}')
+        if not nl['st']:
+            return unpack_bp(sim.s[1], sims), pi_pos, st_pos
+        sim.s[0] = pack_bp(stim)
     sim.s_to_c(); sim.c_prop(); sim.c_to_s()
     return unpack_bp(sim.s[1], sims), pi_pos, st_pos
 
